@@ -685,12 +685,75 @@ def i_multiline_literal_block(c):
     return lines + ["", "", f"print({f}(1))", f"print({f}(0))"]
 
 
+def i_if_control_flow(c):
+    """Both branches of an if are the same statements up to the values they use (simplify_if_control_flow), start or end with the same statement
+    (breakout_common_code_in_ifs), with pure and effectful tests and values."""
+    r = c.r
+    x, y, z = c.name("x"), c.name("y"), c.name("z")
+    test = r.choice([f"{z} > 1", f"{z} % 2", c.t(), f"{z} == {x}", f"len(str({z})) > 1"])
+    lines = [f"{x} = {r.randint(2, 5)}", f"{y} = {r.randint(6, 9)}", f"{z} = {r.randint(0, 3)}"]
+    kind = r.choice(["same_shape", "same_shape", "common_head", "common_tail", "common_both", "head_effect"])
+    if kind == "same_shape":
+        lines += [f"if {test}:"] + ind([f"print({x})", f"print({y} - {x} ** 2)", f"print(str({x}) + str({y} * {y}))"]) + ["else:"] + ind([f"print({y})", f"print({x} - {y} ** 2)", f"print(str({y}) + str({x} * {x}))"])
+    elif kind == "common_head":
+        lines += [f"if {test}:"] + ind(["print(100)", f"print({x})"]) + ["else:"] + ind(["print(100)", f"print({y})"])
+    elif kind == "common_tail":
+        lines += [f"if {test}:"] + ind([f"print({x})", "print(100)"]) + ["else:"] + ind([f"print({y})", "print(100)"])
+    elif kind == "common_both":
+        lines += [f"if {test}:"] + ind([f"{z} += 1", f"print({x})", f"print({z})"]) + [f"elif {y} > {x}:"] + ind([f"{z} += 1", f"print({y})", f"print({z})"]) + ["else:"] + ind([f"{z} += 1", "print('else')", f"print({z})"])
+    else:
+        lines += [f"if {test}:"] + ind([f"{z} = {c.t()}", f"print({x})"]) + ["else:"] + ind([f"{z} = {c.t()}", f"print({y})"]) + [f"print({z})"]
+    return lines
+
+
+def i_early_continue_forms(c):
+    """Loop bodies that are one big if, an if/else with a short and a long branch, nested: early_continue and the else / swap rules."""
+    r = c.r
+    i, acc = c.name("i"), c.name("acc")
+    cnd = c.cond(i)
+    long_ = [f"{acc}.append({i})", f"{acc}.append({i} * 2)", f"print({i} ** 2)", f"{acc}.append(len({acc}))"]
+    kind = r.choice(["single_if", "if_else_short_long", "if_else_long_short", "nested"])
+    lines = [f"{acc} = []", f"for {i} in range({r.randint(3, 6)}):"]
+    if kind == "single_if":
+        lines += ind([f"if {cnd}:"] + ind(long_))
+    elif kind == "if_else_short_long":
+        lines += ind([f"if {cnd}:"] + ind([f"{acc}.append(-1)"]) + ["else:"] + ind(long_))
+    elif kind == "if_else_long_short":
+        lines += ind([f"if {cnd}:"] + ind(long_) + ["else:"] + ind([f"{acc}.append(-1)"]))
+    else:
+        lines += ind([f"if {cnd}:"] + ind([f"if {i} % 2:"] + ind(long_)) + [f"{acc}.append('tail')"])
+    if r.random() < 0.3:
+        lines += ["else:"] + ind([f"{acc}.append('done')"])
+    return lines + [f"print({acc})"]
+
+
+def i_comprehension_chains(c):
+    """Comprehensions over comprehensions and sums of named comprehensions (merge_chained_comps, merge_nested_comprehensions, inline_math_comprehensions)."""
+    r = c.r
+    w, x, y = c.name("w"), c.name("x"), c.name("y")
+    src = r.choice(["(3, 4, 5)", "range(6)", c.int_list(4), "[t(1), 2]" if r.random() < 0.2 else "range(2, 7)"])
+    kind = r.choice(["chained_same", "chained_mixed", "nested_filter", "named_sum", "named_sum_used_twice", "chained_transform"])
+    if kind == "chained_same":
+        o, cl = r.choice([("(", ")"), ("[", "]"), ("{", "}")])
+        return [f"{x} = {o}{y} for {y} in {o}{y} for {y} in {src}{cl}{cl}", f"print(sorted({x}))"]
+    if kind == "chained_mixed":
+        return [f"{x} = [{y} for {y} in ({y} for {y} in {src})]", f"{w} = {{{y} for {y} in [{y} * 2 for {y} in {src}]}}", f"print({x}, sorted({w}))"]
+    if kind == "nested_filter":
+        return [f"{x} = [{y} for {y} in ({y} for {y} in {src} if {y} % 2) if {y} > 2]", f"print({x})"]
+    if kind == "chained_transform":
+        return [f"{x} = [{y} + 1 for {y} in [{y} * 2 for {y} in {src}]]", f"print({x})"]
+    if kind == "named_sum":
+        return [f"{w} = [{y} ** 2 for {y} in {src}]", f"{x} = sum({w})", f"print({x})"]
+    return [f"{w} = [{y} ** 2 for {y} in {src}]", f"{x} = sum({w})", f"print({x}, len({w}))", f"{w}.append(1)", f"print(sum({w}))"]
+
+
 IDIOMS = {f.__name__[2:]: f for f in [
     i_list_append_loop, i_dict_loop, i_dict_literal_updates, i_collection_add_update, i_if_return_bool, i_redundant_else, i_swap_if_else, i_early_return, i_early_continue,
     i_filter_map_lambda, i_for_filter, i_comprehension_forms, i_literal_functions, i_unused_and_pointless, i_dead_code, i_singleton_compare, i_boolean_logic, i_staticmethod_class,
     i_unconventional_class, i_duplicate_functions, i_imports, i_overused_constant, i_assign_return, i_context_manager, i_raise_from, i_zip_enumerate, i_defaultdict,
     i_move_before_loop, i_nested_loops, i_logging, i_negated_compare, i_lambda_redundant, i_commented_code, i_while_counter, i_invalid_escape, i_string_ops, i_numpy,
     i_const_iter_loop, i_loop_carried, i_constrained_range, i_effectful_helper, i_multiline_literal_block,
+    i_if_control_flow, i_early_continue_forms, i_comprehension_chains,
 ]}
 NEEDS = {"numpy": "numpy"}
 
